@@ -14,7 +14,7 @@ verus! {
 //#use-contract linerange compress_contract.inc.rs
 
 pub enum GitAiError { Generic(String) }
-pub struct Repository { pub _opaque: () }
+#[verifier::external_body] pub struct Repository { _o: () }
 
 // ---------------------------------------------------------------- stand-ins for the std collections (rule O1)
 #[verifier::external_body]
